@@ -365,10 +365,11 @@ PROPS["C19"] = {
     "rule": ("cycle = 1..4 ops from {ping-pong, burst of 1-4 texts one way, forged copy of the peer's latest data message with sender/recipient key id +0..4 and a raised counter, garbage behind ?OTR:AAMD, bit-flipped key-exchange message, re-key by query, complete SMP run, clock ageing, replay of three old data messages}; texts have a fixed length. "
              "Oracle: size after cycles 2n and 4n <= largest size seen in cycles 1..n + 1024 bytes, for both parties; longest message emitted in cycles (2n,4n] <= longest in [1,n] + 160 bytes. Non-trivial: the cycle contains an accepted message each way or a rejected input."),
     "assumptions": COMMON_ASSUME + ["texts queued before a session exists and half-received fragment streams are not generated inside cycles (the statement allows them to grow)"],
-    "exhaustive_checks": ["C19patterns"],
+    "exhaustive_checks": ["C19patterns", "C19ref"],
     "tests": [
         {"name": "TestProp_C19_Cycles", "quick": {"shards": 8, "checks": 6, "timeout": 600}, "thorough": {"shards": 16, "checks": 60, "timeout": 3000}},
         {"name": "TestProp_C19_Patterns", "kind": "plain", "quick": {"shards": 8, "timeout": 600}, "thorough": {"shards": 16, "timeout": 3000}},
+        {"name": "TestProp_C19_Ref", "kind": "plain", "quick": {"shards": 8, "timeout": 600}, "thorough": {"shards": 16, "timeout": 3000}},
     ],
 }
 
@@ -422,17 +423,17 @@ _EXTRA2 = {
     "C02": " Round 6: C02resent - for every text length 12..911 (thorough ..4211), both versions: the text is sent, the peer's client reports it unreadable, the parties re-key, and what comes back marked '[resent] ' must be exactly the text passed to Send.",
     "C03": " Round 6: the peer's disconnect record may carry a value of 1-3 bytes, be preceded by a padding record and travel together with last words.",
     "C04": " Round 6: C04long - texts of 33-100 KB in both directions, whole and in pieces of 150..65535 bytes.",
-    "C05": " Round 6: C05refreplay - data messages built by the reference in forms otr3's own Send never produces (text flagged ignore-unreadable, text plus extra-key record, flagged text plus padding, records only), accepted once and delivered again after 0, 1, 2 and 4 rounds of traffic: no text, no record acted on again.",
+    "C05": " Round 7: the first delivery may meet a failing randomness source (the text may come out once in all, over the first delivery and every repetition); the reference's counter may jump by 3*2^61 twice before the first message is presented again. Round 6: C05refreplay - data messages built by the reference in forms otr3's own Send never produces (text flagged ignore-unreadable, text plus extra-key record, flagged text plus padding, records only), accepted once and delivered again after 0, 1, 2 and 4 rounds of traffic: no text, no record acted on again.",
     "C06": " Round 6: C06fresh - two conversations that have never talked: at every point of their first exchange either side receives a refused or ignored key-exchange message (wrong or foreign instance tags, from another instance to another instance of ours, cut short, damaged, other version, retyped, length prefix altered), compared with the twin world byte for byte.",
-    "C07": " Round 6: the other side starts too, at any later point of the schedule (its own trigger once, all four triggers); trigger 5: a tagged text written by another implementation (8 forms: version-1 and later-version groups before, between or after the known ones) reaches a party that starts on tags - it must send a D-H Commit and the exchange must complete in every schedule.",
+    "C07": " Round 7: the version pairs with unequal policies (23/3, 2/23, 3/23, 23/2) run the plain start patterns in the quick tier too. Round 6: the other side starts too, at any later point of the schedule (its own trigger once, all four triggers); trigger 5: a tagged text written by another implementation (8 forms: version-1 and later-version groups before, between or after the known ones) reaches a party that starts on tags - it must send a D-H Commit and the exchange must complete in every schedule.",
     "C08": " Round 6: C08peerend - otr3 against the reference, which ends the session in 128 ways (disconnect record with a 0-3 byte value, padding record first, last words in the same message, six kinds of trailing bytes, both versions): afterwards no D-H exponent otr3 drew is reachable from the conversation or left unzeroed.",
-    "C10": " Round 6: the reference may number its first D-H key 2, 3, 100 or 70000 (any number > 0 is legal), may start every record block with a padding record, and may end the session with last words in the same message, a disconnect record carrying a value, padding first - with otr3's heartbeat due or not.",
+    "C10": " Round 7: texts of 49-100 KB in the fragment sweep (reassembled and read by the reference); a key exchange inside the session in which every Reveal Signature / Signature of the reference arrives behind a copy of itself with a damaged MAC. Round 6: the reference may number its first D-H key 2, 3, 100 or 70000 (any number > 0 is legal), may start every record block with a padding record, and may end the session with last words in the same message, a disconnect record carrying a value, padding first - with otr3's heartbeat due or not.",
     "C11": " Round 6: the secret buffers handed to StartAuthenticate / ProvideAuthenticationSecret are the caller's again when the call returns: the harness overwrites them immediately.",
     "C13": " Round 6: C13truncations - every message of a real session (both versions, whole and in pieces) cut after each of its first 40 / last 8 decoded bytes and first 24 / last 6 characters, given to ExtractInstanceTags, and the decoded-body cuts to Receive in a fresh and in an encrypted conversation.",
     "C14": " Round 6: the message in pieces may be an '?OTR Error' message: it is reported to the application exactly once, on completion, and never again whatever arrives later (counted over all arrivals of the case).",
     "C17": " Round 6: SMP questions are arbitrary non-NUL bytes (any encoding or none).",
     "C18": " Round 6: C18peerend - the 128 peer-end forms of C08peerend: exactly one GoneInsecure, last words delivered without error, Send refused until End(), plaintext afterwards, End() raises nothing more.",
-    "C19": " Round 6: something happens once before the cycles - an '?OTR Error' request, or a query whose D-H Commit answer is lost so that a key exchange stays pending - and then one kind of traffic goes on (sends, ping-pong, crossing messages, garbage, forgeries, replays).",
+    "C19": " Round 7: C19ref - otr3 against the reference for 4N rounds of ping-pong, listening only, mostly talking, or flagged texts, with the reference numbering its keys from 1, 2, 100 or 70000 and putting padding first or not. Round 6: something happens once before the cycles - an '?OTR Error' request, or a query whose D-H Commit answer is lost so that a key exchange stays pending - and then one kind of traffic goes on (sends, ping-pong, crossing messages, garbage, forgeries, replays).",
 }
 for _k, _v in _EXTRA2.items():
     PROPS[_k]["rule"] += _v
